@@ -370,7 +370,27 @@ func (r *tokReg) drain(cs grpc.ClientStream) ([]int64, string) {
 				bodies = append(bodies, r.payloadTok(m.Value))
 				continue
 			}
-			return bodies, r.termCoq(err)
+			// the terminal result is sticky: two more RecvMsg calls must report the same thing (a failed stream
+			// must not turn into a clean end on a later call); a differing later answer is what is reported
+			term := r.termCoq(err)
+			for again := 0; again < 2; again++ {
+				var m2 wrapperspb.BytesValue
+				res2 := make(chan error, 1)
+				go func() { res2 <- cs.RecvMsg(&m2) }()
+				synctest.Wait()
+				select {
+				case e2 := <-res2:
+					if e2 == nil {
+						return append(bodies, -1), "None" // a message after the end
+					}
+					if t2 := r.termCoq(e2); t2 != term {
+						return bodies, t2
+					}
+				default:
+					return bodies, "None"
+				}
+			}
+			return bodies, term
 		default:
 			return bodies, "None"
 		}
